@@ -1114,6 +1114,12 @@ def skymask(invvar, andmask, ormask=None, ngrow=2):
     redmonster = int(sdss_flagval('SPPIXMASK', 'REDMONSTER'))
     # brightsky = sdss_flagval('SPPIXMASK', 'BRIGHTSKY')
     if ormask is not None:
+        if ormask.dtype.kind in 'iu' and ormask.dtype.itemsize < 8:
+            #
+            # A mask narrower than the flag values (int16) cannot be
+            # combined with them in its own type.
+            #
+            ormask = ormask.astype(np.int64)
         badmask = badmask | ((ormask & badskychi) != 0)
         badmask = badmask | ((ormask & redmonster) != 0)
         # badmask = badmask | ((andmask & brightsky) != 0)
